@@ -101,7 +101,7 @@ func runCap(c CapCase, cs *kit.CaseStats) error {
 	if c.NCand > 0 {
 		disc = 5 * time.Millisecond
 	}
-	srv, err := p2px.StartSyncer(node, p2px.NodeConfig{Name: "srv", IP: "127.0.0.1", UID: p2px.DetUniqueID("cap-srv"), NoRun: true, Opts: []syncer.Option{
+	srv, err := p2px.StartSyncer(node, p2px.NodeConfig{Name: "srv", IP: p2px.ListenIP(0), UID: p2px.DetUniqueID("cap-srv"), NoRun: true, Opts: []syncer.Option{
 		syncer.WithSyncInterval(time.Hour), syncer.WithPeerDiscoveryInterval(disc),
 		syncer.WithMaxInboundPeers(c.MaxIn), syncer.WithMaxOutboundPeers(c.MaxOut),
 	}})
@@ -117,7 +117,7 @@ func runCap(c CapCase, cs *kit.CaseStats) error {
 		}
 	}()
 	for i := 0; i < c.NCand; i++ {
-		gp, err := quietListener(genesisID, fmt.Sprintf("127.60.%d.%d", 1+i/4, 1+i%4), p2px.DetUniqueID("cap-cand", i))
+		gp, err := quietListener(genesisID, p2px.ListenIP(10+i), p2px.DetUniqueID("cap-cand", i))
 		if err != nil {
 			return fmt.Errorf("INFRA: %v", err)
 		}
@@ -127,7 +127,7 @@ func runCap(c CapCase, cs *kit.CaseStats) error {
 	}
 	var explicit []*p2px.GWPeer
 	for i := 0; i < c.NExplicit; i++ {
-		gp, err := quietListener(genesisID, fmt.Sprintf("127.61.%d.%d", 1+i/4, 1+i%4), p2px.DetUniqueID("cap-expl", i))
+		gp, err := quietListener(genesisID, p2px.ListenIP(30+i), p2px.DetUniqueID("cap-expl", i))
 		if err != nil {
 			return fmt.Errorf("INFRA: %v", err)
 		}
